@@ -523,6 +523,11 @@ def _e7_walk(prog, f, br, succ, aliases, zero, neg=(), cap=3000):
                             nxt = [t.x["succ"][0]]
                         elif c.pred in ("sgt", "sge"):
                             nxt = [t.x["succ"][1]]
+                    elif xr.is_const and xr.is_int and xr.sval != 0:
+                        truth = {"eq": False, "ne": True, "slt": xr.sval < 0, "sle": xr.sval <= 0, "sgt": xr.sval > 0,
+                                 "sge": xr.sval >= 0}.get(c.pred)
+                        if truth is not None:
+                            nxt = [t.x["succ"][0] if truth else t.x["succ"][1]]
                     elif id(xr) in zero or (xr.is_const and xr.is_int and xr.sval == 0):
                         if c.pred == "eq":
                             nxt = [t.x["succ"][0]]
@@ -535,7 +540,10 @@ def _e7_walk(prog, f, br, succ, aliases, zero, neg=(), cap=3000):
                 continue
             dfs(s_, path)
 
-    dfs(succ, [br.bb])
+    if succ is None:
+        dfs(br.bb, [])          # start at the block itself: its own branch is followed consistently, too
+    else:
+        dfs(succ, [br.bb])
     return res
 
 
@@ -602,6 +610,7 @@ def rule_e7(chk, prog, em, tool, seen):
     return n
 
 
+E9_EXCEPTIONS = {}
 REPORTING = {"perror", "sqfs_perror", "fprintf", "fputs", "fputc", "fwrite", "vfprintf", "printf", "puts", "abort", "exit",
              "_exit", "__assert_fail"}
 E8_EXCEPTIONS = {
@@ -1300,10 +1309,10 @@ def run(chk):
         "to) before it is dereferenced, and realloc never overwrites the only copy unchecked; packers: every exit after a "
         "successful sqfs_writer_init passes sqfs_writer_cleanup, EXIT_SUCCESS only from the success edge of "
         "sqfs_writer_finish, cleanup unlinks on failure; all four mains: exit status 0 unreachable from every failure "
-        "edge; submit failures propagate. Further rules: E4 (an error result obtained in a loop is examined before the next iteration replaces it), E5 (results of tri-state functions are not collapsed to ==0), E6 (an error edge does not return a regular value), E8 (a failing call in a loop whose result is only compared with 0 does not lead round the loop to the next attempt without a trace), E7 (no path from an allocation-failure edge or a negative-result edge returns 0 / a status variable pinned to 0: path enumeration with phis resolved by edge and loads by the last store), init-unlinks and chdir-undone under K1-cleanup.")
+        "edge; submit failures propagate. Further rules: E4 (an error result obtained in a loop is examined before the next iteration replaces it), E5 (results of tri-state functions are not collapsed to ==0), E6 (an error edge does not return a regular value), E9 (every failure of a fault source or of a libsquashfs/libutil call in tool-level code is reported on stderr there or on every way up to main's exit: bottom-up summary of functions that hand a failure on unreported, path enumeration from the call under the assumption that it failed), E8 (a failing call in a loop whose result is only compared with 0 does not lead round the loop to the next attempt without a trace), E7 (no path from an allocation-failure edge or a negative-result edge returns 0 / a status variable pinned to 0: path enumeration with phis resolved by edge and loads by the last store), init-unlinks and chdir-undone under K1-cleanup.")
     chk.assumptions = ["that the handling of a consumed error is *right* is not decided, only that the error reaches a decision"]
     seen1, seen2, seen3, seen4, seen5, seen6, seen7 = set(), set(), set(), set(), set(), set(), set()
-    seen8, seen9 = set(), set()
+    seen8, seen9, seen10 = set(), set(), set()
     n1 = n3 = 0
     for tool in TOOLS:
         prog = load_program(tool)
@@ -1315,6 +1324,8 @@ def run(chk):
         rule_e6(chk, prog, em, tool, seen7)
         rule_e7(chk, prog, em, tool, seen8)
         rule_e8(chk, prog, em, tool, seen9)
+        from ..diag import run_diag
+        run_diag(chk, prog, em, tool, tristate_functions(prog, em), _e7_walk, _e7_zero_known, "E9", E9_EXCEPTIONS, seen10)
         n3 += rule_e3(chk, prog, tool, seen3)
         rule_cleanup(chk, prog, tool)
         if tool == "gensquashfs":
@@ -1333,6 +1344,7 @@ def run(chk):
     chk.floor("E6", 20)
     chk.floor("E7", 80)
     chk.floor("E8", 20)
+    chk.floor("E9", 100)
     chk.floor("K1-cleanup", 9)
     chk.floor("K1-status", 4)
     chk.floor("E1-submit", 1)
